@@ -30,12 +30,19 @@ type Case struct {
 	Family   string `json:"family,omitempty"`
 	Depth    int    `json:"depth,omitempty"`
 	Script   []Step `json:"script,omitempty"`
-	Method   string `json:"method,omitempty"`
-	Body     string `json:"body,omitempty"`
-	NilBody  bool   `json:"nil_body,omitempty"`
-	Expect   string `json:"expect,omitempty"` // http: data | errors | any
-	Target   string `json:"target,omitempty"` // cancel: http | fedserver | gateway | gateway-sibling
-	When     string `json:"when,omitempty"`   // cancel: before | during
+	// socket stream: the FailWrite-th WriteJSON and all later ones fail (FailClose: with a websocket close error)
+	FailWrite int  `json:"fail_write,omitempty"`
+	FailClose bool `json:"fail_close,omitempty"`
+	// PanicIn: "middleware" (a connection middleware panics on queries that mention boom) or "makectx" (the
+	// MakeCtx hook panics from its second call on): server-side user code outside resolvers. Not generated
+	// by default (nothing recovers there: known finding).
+	PanicIn string `json:"panic_in,omitempty"`
+	Method  string `json:"method,omitempty"`
+	Body    string `json:"body,omitempty"`
+	NilBody bool   `json:"nil_body,omitempty"`
+	Expect  string `json:"expect,omitempty"` // http: data | errors | any
+	Target  string `json:"target,omitempty"` // cancel: http | fedserver | gateway | gateway-sibling
+	When    string `json:"when,omitempty"`   // cancel: before | during
 }
 
 func (c *Case) QueryText() string {
@@ -403,6 +410,11 @@ var argSamples15 = map[string][]string{
 	"Query.eboom": {`(mode: "ok")`, `(mode: "nilmap")`},
 	"Obj.boom":    {`(mode: "ok")`, `(mode: "ok")`, `(mode: "index")`},
 	"Obj.bboom":   {`(mode: "ok")`, `(mode: "ok")`, `(mode: "nilptr")`},
+	"Obj.fboom":   {`(mode: "ok")`, `(mode: "panic")`, `(mode: "index")`},
+	"Query.rows": {`(first: 2)`, `(sortBy: "rank", mode: "ok")`, `(sortBy: "erank", sortOrder: desc, mode: "panic")`,
+		`(sortBy: "brank", mode: "nilmap")`, `(sortBy: "rank", mode: "index")`, `(filterText: "a", mode: "panic")`,
+		`(filterText: "b", filterTextFields: ["efname"], mode: "nilptr")`, `(filterText: "b", filterTextFields: ["bfname"], mode: "errorvalue")`,
+		`(mode: "self-panic")`, `(last: 1, sortBy: "erank", mode: "err")`},
 }
 
 func genTyped(r *vh.Rng, desc *gqlty.SchemaDesc) Case {
@@ -491,7 +503,7 @@ var panicModes = []string{"panic", "nilmap", "index", "nilptr", "errorvalue"}
 // panicQuery places one misbehaving resolver at a seeded place of a query.
 func panicQuery(r *vh.Rng, mode string) string {
 	m := fmt.Sprintf("%q", mode)
-	switch r.Intn(8) {
+	switch r.Intn(16) {
 	case 0:
 		return `{ boom(mode: ` + m + `) }`
 	case 1:
@@ -506,8 +518,24 @@ func panicQuery(r *vh.Rng, mode string) string {
 		return `{ a eboom(mode: ` + m + `) counter }`
 	case 6:
 		return `{ ...F } fragment F on Query { obj { child { child { boom(mode: ` + m + `) } } } }`
-	default:
+	case 7:
 		return `{ counter nn { boom(mode: ` + m + `) bboom(mode: "ok") } }`
+	case 8: // sort field, plain
+		return `{ rows(sortBy: "rank", mode: ` + m + `) { totalCount edges { node { id } } } }`
+	case 9: // sort field on errgroup goroutines
+		return `{ a rows(sortBy: "erank", sortOrder: desc, mode: ` + m + `) { edges { node { id rank } cursor } } }`
+	case 10: // batch sort field
+		return `{ rows(sortBy: "brank", mode: ` + m + `) { totalCount } }`
+	case 11: // filter fields (all three kinds are consulted when none is named)
+		return `{ rows(filterText: "b", mode: ` + m + `) { totalCount } }`
+	case 12:
+		return `{ rows(filterText: "b", filterTextFields: ["` + r.Pick([]string{"fname", "efname", "bfname"}) + `"], mode: ` + m + `) { edges { node { name } } } }`
+	case 13: // the paginated resolver itself
+		return `{ rows(first: 1, mode: ` + fmt.Sprintf("%q", "self-"+mode) + `) { totalCount } }`
+	case 14: // batch field with fallback (both paths over time)
+		return `{ objs { fboom(mode: ` + m + `) } obj { fboom(mode: ` + m + `) } }`
+	default:
+		return `{ obj { kids { fboom(mode: ` + m + `) bboom(mode: "ok") } } }`
 	}
 }
 
@@ -565,6 +593,13 @@ func genSocket(r *vh.Rng) Case {
 		add(Step{Op: "send", Kind: "hard-junk", Env: r.Pick([]string{`{"id": 5}`, `[1,2]`, `{"id":"x","type":"subscribe","message":`, `"str"`, `{"id":"x","type":7}`, "\xff\xfe"})})
 	}
 	add(Step{Op: "close"})
+	if r.Chance(35) {
+		// the client vanishes while replies are being written: at the k-th write, which may come from the read
+		// loop (errors, echo) or from inside a subscription's or mutation's computation
+		c.FailWrite = 1 + r.Intn(6)
+		c.FailClose = r.Chance(25)
+		c.Origin = "script-write-fails"
+	}
 	return c
 }
 
